@@ -178,7 +178,8 @@ func Gen(t *rapid.T, o GenOpts) *Scenario {
 			if s.Nodes[i].Variant == 'H' || rapid.IntRange(0, 3).Draw(t, "haslookup") == 0 {
 				k := rapid.IntRange(1, 2).Draw(t, "nlookups")
 				for j := 0; j < k; j++ {
-					s.Nodes[i].Lookups = append(s.Nodes[i].Lookups, rapid.IntRange(0, len(s.Nodes)-1).Draw(t, "lookup"))
+					// -1: an optional collaborator nobody registered (the failed lookup is tolerated by the caller)
+					s.Nodes[i].Lookups = append(s.Nodes[i].Lookups, rapid.IntRange(-1, len(s.Nodes)-1).Draw(t, "lookup"))
 				}
 			}
 		}
@@ -247,6 +248,9 @@ func (s *Scenario) Instantiate() *Instance {
 	}
 	for i, n := range s.Nodes {
 		for _, j := range n.Lookups {
+			if j == -1 {
+				in.Behs[i].InitLookups = append(in.Behs[i].InitLookups, "?no-such-component")
+			}
 			if j >= 0 && j < len(s.Nodes) && j != i {
 				nm, _ := model.NameOf(in.Comps[j])
 				in.Behs[i].InitLookups = append(in.Behs[i].InitLookups, nm)
